@@ -105,7 +105,8 @@ Resolve(X, R, ln) ==   \* the line after deprecated-name resolution, or "missing
   IF ln.n \in DOMAIN X.s THEN [n |-> ln.n, v |-> ln.v, d |-> ln.d, ok |-> TRUE]
   ELSE IF ln.n \in DOMAIN R /\ R[ln.n].new \in DOMAIN X.s
     THEN LET t == X.s[R[ln.n].new].type
-             v == IF R[ln.n].inv /\ t = "bool" THEN (IF ln.v = "y" THEN "n" ELSE "y") ELSE ln.v
+             \* (only y and n have an opposite: anything else stays the invalid value it is)
+             v == IF R[ln.n].inv /\ t = "bool" /\ ln.v \in {"y", "n"} THEN (IF ln.v = "y" THEN "n" ELSE "y") ELSE ln.v
          IN [n |-> R[ln.n].new, v |-> v, d |-> FALSE, ok |-> TRUE]
     ELSE [n |-> ln.n, v |-> ln.v, d |-> ln.d, ok |-> FALSE]
 
